@@ -80,8 +80,10 @@ def render_meminfo(rec, S=1):
 _ZONES = ["DMA", "Normal", "HighMem", "Movable"]
 
 
-def render_zoneinfo(lows, S=1):
+def render_zoneinfo(lows, S=1, layout=None):
     out = []
+    if layout is None:
+        layout = (sum(lows) + len(lows) + S) % 3
     for n, low in enumerate(lows):
         low = low * S
         out.append("Node 0, zone %8s\n" % _ZONES[n % len(_ZONES)])
@@ -89,10 +91,17 @@ def render_zoneinfo(lows, S=1):
             out.append("  per-node stats\n      nr_inactive_anon 7101\n      nr_active_anon 7102\n"
                        "      nr_inactive_file 7103\n      nr_active_file 7104\n")
         out.append("  pages free     %d\n" % 7105)
-        out.append("        boost    0\n")
+        # mm/vmstat.c over the years: 2.6-4.x print min/low/high (+ scanned), 5.0 adds boost
+        # in front, 6.x adds promo behind; every kernel without MemAvailable has the first form
+        if layout != 1:
+            out.append("        boost    %d\n" % (0 if layout == 0 else 7112))
         out.append("        min      %d\n" % (low * 4 // 5))
         out.append("        low      %d\n" % low)
         out.append("        high     %d\n" % (low + low // 5))
+        if layout == 1:
+            out.append("        scanned  7113\n")
+        if layout == 2:
+            out.append("        promo    %d\n" % (low + low // 4))
         out.append("        spanned  7106\n        present  7107\n        managed  7108\n        cma      0\n")
         out.append("        protection: (0, 7109, 7110, 7110)\n")
         out.append("      nr_free_pages 7105\n      nr_zone_inactive_anon 7111\n")
